@@ -21,5 +21,5 @@ def queries(tier):
     for root in (0, 1):
         qs.append(Query('stringify/precision/root%d' % root, 'C08_precision.cpp', 'h_precision', {'ROOT': root}, bounds=b, default_unwind=4, default_rec=3,
                         rec_bounds={'~Value|stringify.*': 4}, timeout=600, mem_gb=12,
-                        stubs={'_ZN6Qentem5Digit12realToStringIdNS_12StringStreamIcEEyEEvRT0_T1_NS0_14RealFormatInfoE': 'rec_real'}))
+                        stubs={'_ZN6Qentem5Digit12realToStringIdNS_12StringStreamIcEEyEEvRT0_T1_NS0_14RealFormatInfoE': 'rec_real'}, replay='none'))
     return qs
